@@ -361,14 +361,6 @@ theorem argsRel_length {R : Term → Term → Prop} {as bs : Args} (h : ArgsRel 
   | nil => rfl
   | cons _ _ ih => simp [Args.length, ih]
 
-theorem fuel_match_id (r : Fuel (Option Subst)) :
-    (match r with
-     | .done (some σ2) => Fuel.done (some σ2)
-     | r => r) = r := by
-  cases r with
-  | out => rfl
-  | done o => cases o <;> rfl
-
 theorem terminals_sim (uf : Nat) : ∀ (tsS tsD : List Term) (k : Nat), k ≤ uf → ∀ (W : World), W.Good →
     ∀ (x l : Term), W.Eq x l → All2 W.Eq tsS tsD → ∀ (s : Nat), ¬ W.TS s → s < W.nS →
       TOut W s (unify k W.σS x (Term.list tsS (.var s))) (consume uf tsD W.stD l)
